@@ -20,7 +20,10 @@ def main():
         common.use_repo()
         mod = importlib.import_module("harness.%s" % pid.lower())
         if a.replay:
-            rc = mod.replay(a.replay)
+            if hasattr(mod, "replay"):
+                rc = mod.replay(a.replay)
+            else:
+                rc = common.generic_replay(mod, pid, a.replay)
         else:
             rc = mod.main(a.tier)
     except common.MachineryError as e:
